@@ -14,8 +14,8 @@ import (
 	. "verifharness/hx"
 )
 
-func rootN(r common.Root) string     { return new(big.Int).SetBytes(r[:]).String() }
-func bytesN(b []byte) string         { return new(big.Int).SetBytes(b).String() }
+func rootN(r common.Root) string { return bytesN(r[:]) }
+func bytesN(b []byte) string     { return "0x" + new(big.Int).SetBytes(b).Text(16) }
 func coqIdxList(l []common.ValidatorIndex) string {
 	s := make([]string, len(l))
 	for i, x := range l {
